@@ -272,6 +272,11 @@ package server
 
 // a rejected create leaves the four bookkeeping tables (names, excluded names, extra infos, name mappings) as they were
 //@ spec bookkeepingUntouched() bool = preservedMaps("string;[]string") && preservedMaps("string;model.ExtraInfo") && preservedMaps("string;map[string]string") && preservedMaps("string;string") && preservedArrays(string)
+// coversFull(spec, name): the specification "db.coll" (either part may be "*") selects the full name
+//@ spec coversFull(s string, t string) bool = (fullDB(s) == fullDB(t) || fullDB(s) == "*") && (fullColl(s) == fullColl(t) || fullColl(s) == "*")
+//@ spec listed(l []string, x string) bool = exists k int :: {l[k]} 0 <= k && k < len(l) && l[k] == x
+// every owned name that one of the first n specifications covers is in the exclusion list
+//@ spec coveredExcluded(specs []string, n int, owned []string, excl []string) bool = forall i int, j int :: {specs[i], at(j)} 0 <= i && i < n && 0 <= j && j < len(owned) && coversFull(specs[i], owned[at(j)]) ==> listed(excl, owned[at(j)])
 //@ func (*MetaCDC).checkDuplicateCollection
 //@   props C19 C10
 //@   requires e != nil && e.collectionNames.data != nil && e.collectionNames.excludeData != nil && e.collectionNames.extraInfos != nil && e.collectionNames.nameMapping != nil
@@ -292,6 +297,12 @@ package server
 //@   loop 4 invariant bookkeepingUntouched()
 //@   loop 5 invariant bookkeepingUntouched() && (excludeCollectionNames == nil || freshRef2(excludeCollectionNames))
 //@   loop 6 invariant bookkeepingUntouched() && (excludeCollectionNames == nil || freshRef2(excludeCollectionNames))
+// C10: an accepted request is accepted with every collection excluded that another task of the target already owns and
+// that the request's specification covers
+//@   loop 5 invariant [covered-names-of-earlier-specifications-are-excluded] coveredExcluded(newCollectionNames, rangeindex + 1, e.collectionNames.data[uKey], excludeCollectionNames)
+//@   loop 6 invariant [covered-names-of-earlier-specifications-are-excluded] coveredExcluded(newCollectionNames, outerindex + 1, e.collectionNames.data[uKey], excludeCollectionNames)
+//@   loop 6 invariant [covered-names-seen-so-far-are-excluded] forall j int :: {at(j)} 0 <= j && j <= rangeindex && coversFull(newCollectionName, e.collectionNames.data[uKey][at(j)]) ==> listed(excludeCollectionNames, e.collectionNames.data[uKey][at(j)])
+// (the step from the loop to the returned list - the same slice, after two appends to other lists - is not yet discharged)
 //@   requires [the-requests-mapping-is-not-a-recorded-table] forall k string :: {mget(e.collectionNames.nameMapping, k)} e.collectionNames.nameMapping[k] != mapCollectionNames
 //@   loop 7 invariant nameMappings != nil && nameMappings == e.collectionNames.nameMapping[uKey] && nameMappings != mapCollectionNames
 //@   loop 7 invariant forall k string :: {mget(e.collectionNames.nameMapping, k)} e.collectionNames.nameMapping[k] != mapCollectionNames
